@@ -336,6 +336,45 @@ def directed_cases():
     return cases
 
 
+LONG_N = 4500
+
+
+def long_case(count=LONG_N):
+    ''' One agent, ``count`` distinct small bundles (deliver and forward routes alternating, every 40th with all
+    reports requested), then repeats of the first, a middle and the last few, twice over. '''
+    hist = []
+    for idx in range(count):
+        spec = dict(src='dtn://n1/', dest=('dtn://n2/' if idx % 2 == 0 else 'dtn://n2/b'), report_to='dtn:none', flags=0,
+                    time=20000 + idx // 5, seq=idx % 5, crc=1, payload_hex='4142')
+        if idx % 40 == 7:
+            spec.update(report_to='dtn://n2/', flags=ALL_REQ)
+        hist.append(spec)
+    picks = [0, 1, 2, 7, count // 2, count // 2 + 1, count - 3, count - 2, count - 1]
+    reps = [dict(hist[k]) for k in picks if 0 <= k < count]
+    return dict(node_id=NODE, rx_routes=[['^dtn://n2/b$', 'forward'], ['^dtn://n2/', 'deliver']],
+                tx_routes=[dict(pattern='^dtn://n2/', cl_type='fake', mtu=None)], now_ms=800000000000,
+                hist=hist + reps + [dict(item) for item in reps])
+
+
+def run_long(count):
+    ''' Worker: the long history through the real agent and the oracle (too long to ship the observations). '''
+    import time as _time
+    start = _time.time()
+    case = long_case(count)
+    (_canon, raw) = B.run_impl(case)
+    bad = oracle_c10(case, raw)
+    # at most once, counted directly: inputs with any effect per identity
+    acted = {}
+    for (idx, (spec, obs)) in enumerate(zip(case['hist'], raw)):
+        if any(evt[0] in ('deliver', 'tx') for evt in obs['events']):
+            acted.setdefault(B.spec_ident(spec), []).append(idx)
+    for (ident, where) in sorted(acted.items()):
+        if len(where) > 1:
+            bad.append(('C10/identity-acted-on-more-than-once-in-long-history',
+                        'ident %r acted on at inputs %r of %d (seen set forgot it?)' % (ident, where, len(case['hist']))))
+    return (bad[:10], dict(inputs=len(case['hist']), identities_acted=len(acted), seconds=round(_time.time() - start, 1)))
+
+
 def corpus_cases():
     out = []
     cdir = os.path.join(os.path.dirname(os.path.abspath(__file__)), 'corpus')
@@ -361,7 +400,15 @@ def main():
     if chk.args.replay:
         with open(chk.args.replay) as infile:
             rep = json.load(infile)
-        case = rep['replay']['case'] if 'replay' in rep else rep['case']
+        body = rep['replay'] if 'replay' in rep else rep
+        if 'long_history' in body:
+            (bad, stats) = run_long(body['long_history']['count'])
+            print('long history', stats)
+            for (sig, what) in bad:
+                print('ORACLE-FAIL %s: %s' % (sig, what))
+            print('replay: %d oracle failure(s)' % len(bad))
+            sys.exit(1 if bad else 0)
+        case = body['case']
         (canon, raw) = B.run_impl(case)
         bad = oracle_c10(case, raw)
         for (idx, (spec, obs)) in enumerate(zip(case['hist'], canon['inputs'])):
@@ -402,7 +449,15 @@ def main():
 
     B.BpDriver(node_id=NODE)   # import everything once, before the workers fork
     with concurrent.futures.ProcessPoolExecutor(max_workers=12) as pool:
+        long_future = pool.submit(run_long, LONG_N)      # one agent, > 4096 identities, alongside the short histories
         impl = list(pool.map(B.run_impl, [case for (_tag, case) in cases], chunksize=8))
+        (long_bad, long_stats) = long_future.result()
+    chk.coverage['long_history'] = long_stats
+    for (sig, what) in long_bad:
+        chk.fail(signature=sig, what=what + ' [long-history]', replay_obj=dict(long_history=dict(count=LONG_N)))
+    chk.case(ident=('long-history', LONG_N), nontrivial=long_stats['identities_acted'] > 4096,
+             sample=dict(long_history=dict(count=LONG_N), **long_stats))
+    chk.obligation('oracle:long-history-at-most-once', not long_bad, '; '.join(what for (_sig, what) in long_bad[:2]))
 
     phase['impl'] = round(time.time() - mark, 1)
     mark = time.time()
@@ -484,10 +539,12 @@ def main():
         rule='histories of 4-15 bundles over 10 EIDs x random receive/transmit tables (0-5 regex routes from a pool of 20 '
              'patterns, actions deliver/forward/delete/other, MTU none/tiny/270/huge, CL present/absent) with exact repeats, '
              'look-alikes differing in one identity component, fragments (shuffled, overlapping), own-source, admin-endpoint, '
-             'bad-CRC and security-failure bundles, plus directed and corpus cases; each history is run through the real '
+             'bad-CRC (damaged copy before the intact one) and security-failure bundles, plus directed and corpus cases, plus ONE long history '
+             '(a single agent, %d distinct bundles on deliver/forward routes, then repeats of the first, a middle and the last few, twice; oracle '
+             'only - the seen list of the model is unbounded by construction and C10_at_most_once is proved for every length); each short history is run through the real '
              'Agent.recv_bundle (idle queue drained in id order, frozen clock) and through BpAgent.run_render in Coq and '
              'compared event by event, seen-set and pending reassemblies included; non-trivial = the history produced at '
-             'least one event and (contains a repeated identity or produced two different kinds of event)',
+             'least one event and (contains a repeated identity or produced two different kinds of event)' % LONG_N,
         assumptions=[
             'harness stubs for dbus, gi.repository.GLib (virtual main context, idle sources run in id order), portion, crcmod and the '
             'oscrypto version shim are trusted to behave like the libraries they stand for',
